@@ -163,6 +163,19 @@ _BINOP_NAME = {"Add": "+", "Sub": "-", "Mult": "*", "Div": "/", "Pow": "**", "Fl
 _CMP_NAME = {"Lt": "<", "LtE": "<=", "Gt": ">", "GtE": ">=", "Eq": "==", "NotEq": "!="}
 
 
+def _is_generator(fnode):
+    """does the function body contain a yield of its own (not one of a nested function / lambda)?"""
+    todo = list(fnode.body)
+    while todo:
+        n = todo.pop()
+        if isinstance(n, (ast.Yield, ast.YieldFrom)):
+            return True
+        if isinstance(n, (ast.FunctionDef, ast.AsyncFunctionDef, ast.Lambda, ast.ClassDef)):
+            continue
+        todo.extend(ast.iter_child_nodes(n))
+    return False
+
+
 class UnknownBool:
     def __init__(self, label):
         self.label = label
@@ -593,14 +606,27 @@ class Interp:
         env["__func__"] = fi
         self.depth += 1
         self.stack.append(fi)
+        gen = _is_generator(fi.node)
+        if gen:
+            # generator functions are run to exhaustion when called and stand for the list of what they yield.  (The consumer
+            # sees the same values in the same order; what is lost is the interleaving with the consumer's own effects.)
+            env["__yield__"] = []
         try:
             self.exec_block(fi.node.body, env)
-            return None
+            return env["__yield__"] if gen else None
         except _Return as r:
-            return r.value
+            return env["__yield__"] if gen else r.value
         finally:
             self.stack.pop()
             self.depth -= 1
+
+    def e_Yield(self, node, env):
+        env["__yield__"].append(self.eval(node.value, env) if node.value is not None else None)
+        return None
+
+    def e_YieldFrom(self, node, env):
+        env["__yield__"].extend(self.iterate(self.eval(node.value, env), node))
+        return None
 
     def instantiate(self, ci: ClassInfo, args, kwargs, node):
         mro = ci.mro()
